@@ -100,8 +100,14 @@ def scenario_for(seed, index, tier):
                 h['types'] = []
     for i, h in enumerate(chain):
         h['id'] = i
+    gaps = [(0, 200000), (0, 20000), (20000, 20000), (1000, 0), (0, 0),
+            (200000, 1000)]
     sc = {'proto': proto, 'origin': origin, 'state': state, 'exc0': exc0,
           'handlers': chain, 'final': final,
+          'gaps_us': list(gaps[index % len(gaps)] if index < len(en)
+                          else rng.choice(gaps)),
+          'origin_delay_us': [0, 30000, 0, 300000][(index // 7) % 4]
+          if index < len(en) else rng.choice([0, 0, 30000, 300000]),
           'net': {'latency_us': 100,
                   'segment': index >= len(en) and rng.random() < 0.3},
           'sched': {'granularity': 'io' if index < len(en) or
@@ -155,15 +161,19 @@ def build_server(sc):
             raw = wire.frame(payload, compress)
         first['play'] = [['ka', 1], ['raw', raw.hex()], ['ka', 2]]
     elif origin in ('early-listener', 'listener', 'outgoing-listener'):
-        first['play'] = [['ka', 1], ['ka', 2], ['pause', 200000],
-                         ['disconnect', '{"text":"late"}']]
+        # the server's own disconnect may arrive right behind the packet
+        # whose handling fails, within the same 50 ms read wait, or later
+        p1, p2 = sc.get('gaps_us') or (0, 200000)
+        first['play'] = [['ka', 1]] + ([['pause', p1]] if p1 else []) + \
+            [['ka', 2]] + ([['pause', p2]] if p2 else []) + \
+            [['disconnect', '{"text":"late"}']]
     sc['server'] = {'conns': [first, copy.deepcopy(good),
                               copy.deepcopy(good)]}
 
 
 def policy(rng, scenario):
     return Policy(p_sched=rng.choice([0, 0.02]),
-                  p_event=rng.choice([0, 0.1]), p_seg=0.3, p_short=0.3,
+                  p_event=rng.choice([0, 0.1, 0.5]), p_seg=0.3, p_short=0.3,
                   name='c14')
 
 
@@ -243,6 +253,9 @@ def execute(scenario, tape):
             if st['fired']:
                 return
             st['fired'] = True
+            if scenario.get('origin_delay_us'):
+                # a slow listener: the world moves on before it fails
+                w.sleep(scenario['origin_delay_us'])
             e = CLS[scenario['exc0']]('origin')
             label(e, 'E0')
             raise e
